@@ -170,15 +170,32 @@ def main(argv=None):
     out_dir = os.path.join(HERE, "evidence", "cex")
     violations, known_hits, unreproduced = [], [], []
     seen_keys = set()
+    # replay at most 3 counterexamples per obligation name (stop at the first that reproduces), in parallel
+    from concurrent.futures import ThreadPoolExecutor
+    by_ob = {}
     for i, c in enumerate(cexs):
-        cex = c.get("cex")
-        if cex is None:
-            unreproduced.append(dict(c, why="no replayable counterexample was produced"))
-            continue
-        cex = dict(cex, property=pid, ob=c["ob"], case=c["case"])
-        rep, detail, path = replay_real(pid, cex, out_dir, f"{tier}_{i}")
-        if rep is True:
-            k = match_known(pid, cex, detail, known)
+        by_ob.setdefault(c["ob"], []).append((i, c))
+    def replay_group(item):
+        ob, lst = item
+        res = []
+        for i, c in lst[:3]:
+            cex = c.get("cex")
+            if cex is None:
+                res.append((c, None, None, "no replayable counterexample was produced"))
+                continue
+            cex = dict(cex, property=pid, ob=c["ob"], case=c["case"])
+            rep, detail, path = replay_real(pid, cex, out_dir, f"{tier}_{i}")
+            res.append((c, rep, detail, path))
+            if rep is True:
+                break
+        return res
+    with ThreadPoolExecutor(8) as ex:
+        groups = list(ex.map(replay_group, by_ob.items()))
+    for res in groups:
+        reproduced_here = [r for r in res if r[1] is True]
+        if reproduced_here:
+            c, rep, detail, path = reproduced_here[0]
+            k = match_known(pid, c, detail, known)
             if k is not None:
                 if k["key"] not in seen_keys:
                     seen_keys.add(k["key"])
@@ -186,7 +203,8 @@ def main(argv=None):
             else:
                 violations.append(dict(path=path, ob=c["ob"], case=c["case"], detail=detail))
         else:
-            unreproduced.append(dict(case=c["case"], ob=c["ob"], path=path, detail=detail))
+            for c, rep, detail, path in res:
+                unreproduced.append(dict(case=c["case"], ob=c["ob"], path=path, detail=detail))
     wall = time.time() - t0
     status = "held"
     if violations:
